@@ -1,9 +1,12 @@
 //! package `ds` (see CONVENTIONS.md): register components here.
+pub mod fl;
+pub mod tread;
 
 pub fn dispatch(tokens: &[&str]) -> Option<String> {
-    let (c, _args) = tokens.split_first()?;
-    #[allow(clippy::match_single_binding)]
+    let (c, args) = tokens.split_first()?;
     Some(match *c {
+        "fl" => fl::run(args),
+        "tread" => tread::run(args),
         _ => return None,
     })
 }
